@@ -1,1 +1,786 @@
-// verification harness include for mpmc (see /verif/DESIGN.md)
+// Included at the end of /repo/src/channel/mpmc.rs under cfg(futures_intrusive_verif).
+// MPMC channel harnesses (borrowed flavour): one differential interpreter, oracles for C08, C09, C10,
+// C11 (mpmc close semantics), C17 (futures + ChannelStream), C01.
+
+pub(crate) mod verif_mpmc {
+    use super::*;
+    use crate::verif::common::*;
+    use core::mem::ManuallyDrop;
+    use futures_core::future::FusedFuture;
+
+    macro_rules! oracle {
+        ($p:expr, $mask:expr, $cond:expr, $msg:literal) => {
+            if ($p & $mask) != 0 {
+                assert!($cond, $msg);
+            }
+        };
+    }
+
+    pub const W_RENDEZVOUS: u32 = 1; // a parked sender's value was taken directly / moved into the buffer by a receive
+    pub const W_NOTIFIED_DROPPED: u32 = 2; // a notified receiver was dropped and the wake-up passed on
+    pub const W_CLOSE_WITH_PARKED: u32 = 4; // close() while a sender is parked; the sender got its value back
+    pub const W_CANCEL_PARKED: u32 = 8; // cancel() of a parked sender returned the value
+    pub const W_STREAM_ENDS: u32 = 16; // stream yielded an item and later None
+
+    // prefix partitions (cfg bits 4..7): leading operations fixed (they consume no script byte)
+    //  0: none   1: poll send#0   2: poll recv#0   3: poll send#0, poll send#1   4: poll recv#0, poll recv#1
+    //  5: poll send#0, poll recv#0   6: poll recv#0, poll send#0
+    fn prefix_op(pre: u32, step: usize) -> Option<u8> {
+        let tab: [[u8; 2]; 7] = [[255, 255], [0, 255], [4, 255], [0, 2], [4, 6], [0, 4], [4, 0]];
+        if (pre as usize) < 7 && step < 2 && tab[pre as usize][step] != 255 { Some(tab[pre as usize][step]) } else { None }
+    }
+
+    // alphabet partitions (cfg bits 12..19): bit set = operation kind enabled. A disabled kind is guarded by a
+    // constant-false condition, so symbolic execution drops its code: each harness carries only its own alphabet.
+    pub const OP_SEND: u32 = 1; // poll send futures
+    pub const OP_RECV: u32 = 2; // poll receive futures / stream
+    pub const OP_DROP_S: u32 = 4;
+    pub const OP_DROP_R: u32 = 8;
+    pub const OP_CANCEL: u32 = 16;
+    pub const OP_TRY_SEND: u32 = 32;
+    pub const OP_TRY_RECV: u32 = 64;
+    pub const OP_CLOSE: u32 = 128;
+    pub const OP_ALL: u32 = 255;
+
+    /// cfg: bits 0..1 capacity, bits 4..7 prefix partition, bit 8: receive slot #1 is a ChannelStream,
+    /// bits 12..19 enabled operation kinds (0 = all).
+    pub fn hist<M: RawMutex, A: RingBuf<Item = Tag>, S: Src>(s: &mut S, cfg: u32, cap: usize, n: usize, p: u32) -> u32 {
+        #[cfg(not(kani))]
+        reset_tags();
+        let pre = (cfg >> 4) & 15;
+        let with_stream = (cfg >> 8) & 1 == 1;
+        let ops = if (cfg >> 12) & 255 == 0 { OP_ALL } else { (cfg >> 12) & 255 };
+        let ch = GenericChannel::<M, Tag, A>::with_capacity(cap);
+        let (cs0a, cs0b, cs1a, cs1b, cr0a, cr0b, cr1a, cr1b) = (
+            WakeCell::new(), WakeCell::new(), WakeCell::new(), WakeCell::new(),
+            WakeCell::new(), WakeCell::new(), WakeCell::new(), WakeCell::new(),
+        );
+        let mut s0 = ManuallyDrop::new(ch.send(Tag(1)));
+        let mut s1 = ManuallyDrop::new(ch.send(Tag(2)));
+        let mut r0 = ManuallyDrop::new(ch.receive());
+        let mut r1 = ManuallyDrop::new(ch.receive());
+        let mut st1 = ManuallyDrop::new(ch.stream());
+        let mut next_tag: u8 = 3;
+        // ---- reference model ----
+        let mut closed = false;
+        let mut buf = [0u8; 2];
+        let mut blen = 0usize;
+        let mut parked = [0usize; 2];
+        let mut plen = 0usize;
+        let mut rq = [0usize; 2];
+        let mut rqlen = 0usize;
+        // send slots: 0 dropped, 1 holds its value & not queued, 2 parked, 3 value accepted (completion not yet observed), 5 terminated
+        let mut ss = [1u8; 2];
+        let mut stag = [1u8, 2u8];
+        let mut spend = [false; 2];
+        // receive slots: 0 dropped, 1 not queued, 2 registered, 3 notified, 5 terminated (stream: item delivered)
+        let mut rs = [1u8; 2];
+        let mut rpend = [false; 2];
+        let mut stream_ended = false;
+        // wake bookkeeping: index 0,1 send slots; 2,3 receive slots
+        let mut lw = [0u8; 4];
+        let mut snap = [0u32; 4];
+        let mut fresh = [true; 4];
+        let mut ever = [false; 4];
+        // tags whose ownership went back to the harness (received / handed back): must never be dropped by the crate
+        let mut returned = [false; NTAGS];
+        let mut bits = 0u32;
+
+        macro_rules! cell_of {
+            ($slot:expr, $w:expr) => {
+                match ($slot, $w) {
+                    (0, 0) => &cs0a, (0, _) => &cs0b,
+                    (1, 0) => &cs1a, (1, _) => &cs1b,
+                    (2, 0) => &cr0a, (2, _) => &cr0b,
+                    (_, 0) => &cr1a, (_, _) => &cr1b,
+                }
+            };
+        }
+        // model helper: the oldest registered receiver becomes notified
+        macro_rules! wake_oldest_recv {
+            () => {
+                if rqlen > 0 {
+                    let j = rq[0];
+                    rq[0] = rq[1];
+                    rqlen -= 1;
+                    rs[j] = 3;
+                }
+            };
+        }
+        // model helper: result of a non-registering receive attempt: Some(tag) | None
+        macro_rules! model_take {
+            () => {{
+                if blen > 0 {
+                    let v = buf[0];
+                    buf[0] = buf[1];
+                    blen -= 1;
+                    if plen > 0 {
+                        let k = parked[0];
+                        parked[0] = parked[1];
+                        plen -= 1;
+                        buf[blen] = stag[k];
+                        blen += 1;
+                        ss[k] = 3;
+                        bits |= W_RENDEZVOUS;
+                    }
+                    Some(v)
+                } else if plen > 0 {
+                    let k = parked[0];
+                    parked[0] = parked[1];
+                    plen -= 1;
+                    ss[k] = 3;
+                    bits |= W_RENDEZVOUS;
+                    Some(stag[k])
+                } else {
+                    None
+                }
+            }};
+        }
+
+        let mut step = 0;
+        while step < n && !s.exhausted() {
+            let op = match prefix_op(pre, step) { Some(o) => o, None => s.below(17) };
+            step += 1;
+            if (ops & OP_SEND) != 0 && op < 4 {
+                // ---------------- poll send slot i with waker w ----------------
+                let i = (op / 2) as usize;
+                let w = op % 2;
+                s.assume(ss[i] != 5);
+                s.assume(i == 0 || ever[0]);
+                s.assume(!fresh[i] || w == 0);
+                ever[i] = true;
+                let f = match i { 0 => &mut s0, _ => &mut s1 };
+                if ss[i] == 0 {
+                    s.assume(next_tag < 12);
+                    stag[i] = next_tag;
+                    next_tag += 1;
+                    *f = ManuallyDrop::new(ch.send(Tag(stag[i])));
+                    ss[i] = 1;
+                    fresh[i] = true;
+                    spend[i] = false;
+                    oracle!(p, P17, !f.is_terminated(), "C17 mpmc: fresh send future reports terminated");
+                }
+                fresh[i] = false;
+                let cell = cell_of!(i, w);
+                let waker = ManuallyDrop::new(mk_waker(cell));
+                let mut cx = Context::from_waker(&waker);
+                let r = unsafe { Pin::new_unchecked(&mut **f) }.poll(&mut cx);
+                // model
+                let exp: u8; // 0 Pending, 1 Ready(Ok), 2 Ready(Err(own tag))
+                if ss[i] == 1 {
+                    if closed { exp = 2; ss[i] = 5; if spend[i] { bits |= W_CLOSE_WITH_PARKED; } }
+                    else if blen < cap { exp = 1; buf[blen] = stag[i]; blen += 1; ss[i] = 5; wake_oldest_recv!(); }
+                    else { exp = 0; parked[plen] = i; plen += 1; ss[i] = 2; wake_oldest_recv!(); }
+                } else if ss[i] == 2 { exp = 0; } else { exp = 1; ss[i] = 5; }
+                match r {
+                    Poll::Ready(Ok(())) => {
+                        oracle!(p, P09 | P08, exp == 1, "C09 mpmc: a send completed although its value was neither stored in the buffer nor taken by a receiver");
+                        spend[i] = false;
+                    }
+                    Poll::Ready(Err(e)) => {
+                        oracle!(p, P11 | P08, exp == 2, "C11 mpmc: a send failed although the channel is open (or completed twice)");
+                        oracle!(p, P11 | P08, (e.0).0 == stag[i], "C08 mpmc: a failed send did not hand back the caller's own value");
+                        returned[((e.0).0 as usize) % NTAGS] = true;
+                        core::mem::forget(e);
+                        spend[i] = false;
+                    }
+                    Poll::Pending => {
+                        oracle!(p, P09 | P10 | P11, exp == 0, "C09 mpmc: a send stays pending although there is room, its value was taken, or the channel is closed");
+                        spend[i] = true;
+                        lw[i] = w;
+                        snap[i] = cell.n();
+                    }
+                }
+            } else if (ops & OP_RECV) != 0 && op >= 4 && op < 8 {
+                // ---------------- poll receive slot j with waker w ----------------
+                let j = ((op - 4) / 2) as usize;
+                let w = op % 2;
+                let is_stream = with_stream && j == 1;
+                if !is_stream { s.assume(rs[j] != 5); }
+                if !with_stream { s.assume(j == 0 || ever[2]); }
+                s.assume(!fresh[2 + j] || w == 0);
+                ever[2 + j] = true;
+                let cell = cell_of!(2 + j, w);
+                let waker = ManuallyDrop::new(mk_waker(cell));
+                let mut cx = Context::from_waker(&waker);
+                let r: Poll<Option<Tag>>;
+                if is_stream {
+                    s.assume(rs[j] != 0); // the stream itself is not re-created after a drop
+                    if rs[j] == 5 && !stream_ended { rs[j] = 1; } // the next item starts a new internal receive
+                    r = unsafe { Pin::new_unchecked(&mut *st1) }.poll_next(&mut cx);
+                } else {
+                    let f = match j { 0 => &mut r0, _ => &mut r1 };
+                    if rs[j] == 0 {
+                        *f = ManuallyDrop::new(ch.receive());
+                        rs[j] = 1;
+                        fresh[2 + j] = true;
+                        rpend[j] = false;
+                        oracle!(p, P17, !f.is_terminated(), "C17 mpmc: fresh receive future reports terminated");
+                    }
+                    r = unsafe { Pin::new_unchecked(&mut **f) }.poll(&mut cx);
+                }
+                fresh[2 + j] = false;
+                // model
+                let exp: Option<Option<u8>>; // None = Pending, Some(None) = Ready(None), Some(Some(t)) = Ready(Some(t))
+                if is_stream && stream_ended {
+                    exp = Some(None);
+                } else if rs[j] == 2 {
+                    exp = None;
+                } else {
+                    match model_take!() {
+                        Some(v) => { exp = Some(Some(v)); rs[j] = 5; }
+                        None => {
+                            if closed { exp = Some(None); rs[j] = 5; if is_stream { stream_ended = true; } }
+                            else { exp = None; rq[rqlen] = j; rqlen += 1; rs[j] = 2; }
+                        }
+                    }
+                }
+                match r {
+                    Poll::Ready(Some(t)) => {
+                        oracle!(p, P08 | P09, exp.is_some() && exp.unwrap().is_some(), "C08 mpmc: a receive yielded a value although none is available to it");
+                        oracle!(p, P08 | P09, exp == Some(Some(t.0)), "C09 mpmc: a receive yielded a value out of FIFO order (or a value twice)");
+                        returned[(t.0 as usize) % NTAGS] = true;
+                        core::mem::forget(t);
+                        rpend[j] = false;
+                        if is_stream { bits |= 0; }
+                    }
+                    Poll::Ready(None) => {
+                        oracle!(p, P08 | P11 | P17, exp == Some(None), "C11 mpmc: a receive yielded None although the channel is open or a value is still available");
+                        if is_stream && next_tag > 3 { bits |= W_STREAM_ENDS; }
+                        rpend[j] = false;
+                    }
+                    Poll::Pending => {
+                        oracle!(p, P10 | P08 | P11, exp.is_none(), "C10 mpmc: a receive stays pending although a value is available or the channel is closed and drained");
+                        rpend[j] = true;
+                        lw[2 + j] = w;
+                        snap[2 + j] = cell.n();
+                    }
+                }
+            } else if (ops & OP_DROP_S) != 0 && op >= 8 && op < 10 {
+                // ---------------- drop send slot i ----------------
+                let i = (op - 8) as usize;
+                s.assume(ss[i] != 0 && !fresh[i]);
+                let f = match i { 0 => &mut s0, _ => &mut s1 };
+                if ss[i] == 2 {
+                    if plen == 2 && parked[0] == i { parked[0] = parked[1]; }
+                    plen -= 1;
+                }
+                unsafe { ManuallyDrop::drop(f) };
+                ss[i] = 0;
+                spend[i] = false;
+            } else if (ops & OP_DROP_R) != 0 && op >= 10 && op < 12 {
+                // ---------------- drop receive slot j ----------------
+                let j = (op - 10) as usize;
+                s.assume(rs[j] != 0 && !fresh[2 + j]);
+                if rs[j] == 2 {
+                    if rqlen == 2 && rq[0] == j { rq[0] = rq[1]; }
+                    rqlen -= 1;
+                } else if rs[j] == 3 {
+                    if rqlen > 0 { bits |= W_NOTIFIED_DROPPED; }
+                    wake_oldest_recv!();
+                }
+                if with_stream && j == 1 {
+                    unsafe { ManuallyDrop::drop(&mut st1) };
+                } else {
+                    let f = match j { 0 => &mut r0, _ => &mut r1 };
+                    unsafe { ManuallyDrop::drop(f) };
+                }
+                rs[j] = 0;
+                rpend[j] = false;
+            } else if (ops & OP_CANCEL) != 0 && op >= 12 && op < 14 {
+                // ---------------- cancel send slot i ----------------
+                let i = (op - 12) as usize;
+                s.assume(ss[i] != 0 && ss[i] != 5);
+                let f = match i { 0 => &mut s0, _ => &mut s1 };
+                let got = f.cancel();
+                let exp = if ss[i] == 1 || ss[i] == 2 { Some(stag[i]) } else { None };
+                if ss[i] == 2 {
+                    if plen == 2 && parked[0] == i { parked[0] = parked[1]; }
+                    plen -= 1;
+                    bits |= W_CANCEL_PARKED;
+                }
+                match got {
+                    Some(t) => {
+                        oracle!(p, P08, exp == Some(t.0), "C08 mpmc: cancel() returned a value that already left the future (duplicate) or a foreign value");
+                        returned[(t.0 as usize) % NTAGS] = true;
+                        core::mem::forget(t);
+                    }
+                    None => { oracle!(p, P08, exp.is_none(), "C08 mpmc: cancel() lost the value that was still in the send future"); }
+                }
+                ss[i] = 5;
+                spend[i] = false;
+                fresh[i] = false;
+            } else if (ops & OP_TRY_SEND) != 0 && op == 14 {
+                // ---------------- try_send ----------------
+                s.assume(cap > 0 && next_tag < 12);
+                let tag = next_tag;
+                next_tag += 1;
+                match ch.try_send(Tag(tag)) {
+                    Ok(()) => {
+                        oracle!(p, P09 | P11, !closed && blen < cap, "C09 mpmc: try_send accepted a value on a full or closed channel");
+                        if blen < 2 { buf[blen] = tag; blen += 1; }
+                        wake_oldest_recv!();
+                    }
+                    Err(TrySendError::Full(t)) => {
+                        oracle!(p, P09, !closed && blen >= cap, "C09 mpmc: try_send reported Full although there is room or the channel is closed");
+                        oracle!(p, P08, t.0 == tag, "C08 mpmc: try_send(Full) did not hand back the caller's own value");
+                        returned[(t.0 as usize) % NTAGS] = true;
+                        core::mem::forget(t);
+                    }
+                    Err(TrySendError::Closed(t)) => {
+                        oracle!(p, P11, closed, "C11 mpmc: try_send reported Closed on an open channel");
+                        oracle!(p, P08 | P11, t.0 == tag, "C08 mpmc: try_send(Closed) did not hand back the caller's own value");
+                        returned[(t.0 as usize) % NTAGS] = true;
+                        core::mem::forget(t);
+                    }
+                }
+            } else if (ops & OP_TRY_RECV) != 0 && op == 15 {
+                // ---------------- try_receive ----------------
+                let exp = model_take!();
+                match ch.try_receive() {
+                    Ok(t) => {
+                        oracle!(p, P08 | P09, exp == Some(t.0), "C09 mpmc: try_receive yielded a value out of FIFO order, twice, or none was available");
+                        returned[(t.0 as usize) % NTAGS] = true;
+                        core::mem::forget(t);
+                    }
+                    Err(e) => {
+                        oracle!(p, P08 | P09, exp.is_none(), "C08 mpmc: try_receive reported an empty channel although a value is available");
+                        oracle!(p, P11, e.is_closed() == closed, "C11 mpmc: try_receive reports Closed/Empty inconsistently with close()");
+                    }
+                }
+            } else if (ops & OP_CLOSE) != 0 && op == 16 {
+                // ---------------- close ----------------
+                let stt = ch.close();
+                oracle!(p, P11, stt.is_newly_closed() == !closed, "C11 mpmc: close() status is not NewlyClosed-once / AlreadyClosed-afterwards");
+                closed = true;
+                if rqlen > 0 { rs[rq[0]] = 1; }
+                if rqlen > 1 { rs[rq[1]] = 1; }
+                rqlen = 0;
+                if plen > 0 { ss[parked[0]] = 1; }
+                if plen > 1 { ss[parked[1]] = 1; }
+                plen = 0;
+            } else {
+                s.assume(false); // operation kind not in this harness's alphabet
+            }
+
+            // ================= oracles after every operation =================
+            let now = [
+                if lw[0] == 0 { cs0a.n() } else { cs0b.n() }, if lw[1] == 0 { cs1a.n() } else { cs1b.n() },
+                if lw[2] == 0 { cr0a.n() } else { cr0b.n() }, if lw[3] == 0 { cr1a.n() } else { cr1b.n() },
+            ];
+            let wk = [now[0] > snap[0], now[1] > snap[1], now[2] > snap[2], now[3] > snap[3]];
+            if (p & P10) != 0 {
+                let avail = blen > 0 || plen > 0;
+                if avail && (rpend[0] || rpend[1]) {
+                    assert!((rpend[0] && wk[2]) || (rpend[1] && wk[3]),
+                        "C10 mpmc: a value is available and receivers are pending, but none of them was woken through its latest waker");
+                }
+                let mut i = 0;
+                while i < 2 {
+                    if spend[i] && ss[i] == 3 {
+                        assert!(wk[i], "C10 mpmc: a pending sender whose value was accepted was not woken through its latest waker");
+                    }
+                    if closed && spend[i] { assert!(wk[i], "C10 mpmc: a sender pending at close() was not woken"); }
+                    if closed && rpend[i] { assert!(wk[2 + i], "C10 mpmc: a receiver pending at close() was not woken"); }
+                    i += 1;
+                }
+            }
+            if (p & P17) != 0 {
+                if ss[0] != 0 { assert!(s0.is_terminated() == (ss[0] == 5), "C17 mpmc: send future is_terminated() differs from 'completed or cancelled'"); }
+                if ss[1] != 0 { assert!(s1.is_terminated() == (ss[1] == 5), "C17 mpmc: send future is_terminated() differs from 'completed or cancelled'"); }
+                if rs[0] != 0 { assert!(r0.is_terminated() == (rs[0] == 5), "C17 mpmc: receive future is_terminated() differs from 'completed'"); }
+                if with_stream {
+                    if rs[1] != 0 { assert!(st1.is_terminated() == stream_ended, "C17 mpmc: stream is_terminated() differs from 'closed and drained'"); }
+                } else if rs[1] != 0 {
+                    assert!(r1.is_terminated() == (rs[1] == 5), "C17 mpmc: receive future is_terminated() differs from 'completed'");
+                }
+            }
+        }
+        // ================= end of script: everything is dropped, every value exactly once =================
+        if (p & P08) != 0 {
+            if ss[0] != 0 { unsafe { ManuallyDrop::drop(&mut s0) }; }
+            if ss[1] != 0 { unsafe { ManuallyDrop::drop(&mut s1) }; }
+            if rs[0] != 0 { unsafe { ManuallyDrop::drop(&mut r0) }; }
+            if with_stream { if rs[1] != 0 { unsafe { ManuallyDrop::drop(&mut st1) }; } }
+            else if rs[1] != 0 { unsafe { ManuallyDrop::drop(&mut r1) }; }
+            drop(ch);
+            macro_rules! check_tag { ($t:expr) => {
+                if $t < next_tag {
+                    let want = if returned[$t as usize] { 0 } else { 1 };
+                    assert!(tag_drops($t) == want, "C08 mpmc: a value was dropped twice, leaked, or dropped although it was handed to the caller");
+                }
+            } }
+            check_tag!(1u8); check_tag!(2u8); check_tag!(3u8); check_tag!(4u8); check_tag!(5u8); check_tag!(6u8);
+            check_tag!(7u8); check_tag!(8u8); check_tag!(9u8); check_tag!(10u8); check_tag!(11u8);
+        } else {
+            core::mem::forget(ch);
+        }
+        s.reached(bits);
+        bits
+    }
+
+    #[no_mangle]
+    pub fn fi_verif_replay_mpmc(name: &str, cfg: u32, p: u32, s: &mut ScriptSrc<'_>) -> bool {
+        let cap = (cfg & 3) as usize;
+        match (name, cap) {
+            ("mpmc_hist_noop", 0) => { hist::<NoopLock, ArrayBuf<Tag, [Tag; 0]>, _>(s, cfg, 0, 64, p); }
+            ("mpmc_hist_noop", 1) => { hist::<NoopLock, ArrayBuf<Tag, [Tag; 1]>, _>(s, cfg, 1, 64, p); }
+            ("mpmc_hist_noop", 2) => { hist::<NoopLock, ArrayBuf<Tag, [Tag; 2]>, _>(s, cfg, 2, 64, p); }
+            ("mpmc_hist_check", 0) => { hist::<CheckLock, ArrayBuf<Tag, [Tag; 0]>, _>(s, cfg, 0, 64, p); }
+            ("mpmc_hist_check", 1) => { hist::<CheckLock, ArrayBuf<Tag, [Tag; 1]>, _>(s, cfg, 1, 64, p); }
+            ("mpmc_hist_check", 2) => { hist::<CheckLock, ArrayBuf<Tag, [Tag; 2]>, _>(s, cfg, 2, 64, p); }
+            #[cfg(feature = "alloc")]
+            ("mpmc_hist_fixedheap", _) => { hist::<NoopLock, crate::buffer::FixedHeapBuf<Tag>, _>(s, cfg, cap, 64, p); }
+            _ => return false,
+        }
+        true
+    }
+
+
+    // =====================================================================
+    // E-STEP: one real operation from an arbitrary state satisfying Inv_mpmc (2 send + 2 receive futures).
+    //   I1 closed => no registered sender / receiver                                   -> C11
+    //   I2 a sender is registered => the buffer is full                                 -> C09
+    //   I3 a receiver is registered => #notified receivers >= #registered senders + len -> C10
+    //   I4 live un-completed send futures hold their value, completed ones do not       -> C08
+    //   I5 queue membership = {registered}, stored waker = latest                       -> C01
+    // plus per-operation post-conditions (FIFO head, value conservation, wake-ups through the latest waker).
+    // =====================================================================
+    #[cfg(kani)]
+    pub mod step {
+        use super::*;
+        type SNode = ListNode<SendWaitQueueEntry<Tag>>;
+        type RNode = ListNode<RecvWaitQueueEntry>;
+        // send: 0 Unregistered(value inside), 1 Registered(value inside), 2 SendComplete(no value), 3 terminated
+        // recv: 0 Unregistered, 1 Registered, 2 Notified, 3 terminated
+        fn any_st() -> u8 { let x: u8 = kani::any(); kani::assume(x < 4); x }
+        fn obs_s<M>(f: &ChannelSendFuture<'_, M, Tag>) -> u8 {
+            if f.channel.is_none() { return 3; }
+            match f.wait_node.state { SendPollState::Unregistered => 0, SendPollState::Registered => 1, SendPollState::SendComplete => 2 }
+        }
+        fn obs_r<M>(f: &ChannelReceiveFuture<'_, M, Tag>) -> u8 {
+            if f.channel.is_none() { return 3; }
+            match f.wait_node.state { RecvPollState::Unregistered => 0, RecvPollState::Registered => 1, RecvPollState::Notified => 2 }
+        }
+
+        /// class: 0 poll send, 1 poll recv, 2 drop/cancel, 3 try_send/try_receive/close, 4 any
+        pub fn run<M: RawMutex, A: RingBuf<Item = Tag>>(cap: usize, class: u8, p: u32) {
+            let ch = GenericChannel::<M, Tag, A>::with_capacity(cap);
+            let (cs0a, cs0b, cs1a, cs1b, cr0a, cr0b, cr1a, cr1b) = (
+                WakeCell::new(), WakeCell::new(), WakeCell::new(), WakeCell::new(),
+                WakeCell::new(), WakeCell::new(), WakeCell::new(), WakeCell::new(),
+            );
+            let mut s0 = ManuallyDrop::new(ch.send(Tag(10)));
+            let mut s1 = ManuallyDrop::new(ch.send(Tag(11)));
+            let mut r0 = ManuallyDrop::new(ch.receive());
+            let mut r1 = ManuallyDrop::new(ch.receive());
+            let ss = [any_st(), any_st()];
+            let rs = [any_st(), any_st()];
+            let lws: [bool; 2] = [kani::any(), kani::any()];
+            let lwr: [bool; 2] = [kani::any(), kani::any()];
+            let closed: bool = kani::any();
+            let len: usize = kani::any();
+            kani::assume(len <= cap);
+            let rot: usize = kani::any(); // ring position of the buffer contents
+            kani::assume(rot <= cap);
+            let s_first: bool = kani::any(); // s0 is the older registered sender
+            let r_first: bool = kani::any();
+            let n_regs = (ss[0] == 1) as usize + (ss[1] == 1) as usize;
+            let n_regr = (rs[0] == 1) as usize + (rs[1] == 1) as usize;
+            let n_notr = (rs[0] == 2) as usize + (rs[1] == 2) as usize;
+            // ---- Inv (assumed) ----
+            if closed { kani::assume(n_regs == 0 && n_regr == 0); }
+            if n_regs > 0 { kani::assume(len == cap); }
+            if n_regr > 0 { kani::assume(n_notr >= n_regs + len); }
+            macro_rules! setup_s { ($f:ident, $i:expr, $ca:expr, $cb:expr) => { match ss[$i] {
+                0 => {}
+                1 => { $f.wait_node.state = SendPollState::Registered; $f.wait_node.task = Some(if lws[$i] { mk_waker(&$ca) } else { mk_waker(&$cb) }); }
+                2 => { $f.wait_node.state = SendPollState::SendComplete; core::mem::forget($f.wait_node.value.take()); }
+                _ => { $f.channel = None; core::mem::forget($f.wait_node.value.take()); }
+            } } }
+            macro_rules! setup_r { ($f:ident, $i:expr, $ca:expr, $cb:expr) => { match rs[$i] {
+                0 => {}
+                1 => { $f.wait_node.state = RecvPollState::Registered; $f.wait_node.task = Some(if lwr[$i] { mk_waker(&$ca) } else { mk_waker(&$cb) }); }
+                2 => { $f.wait_node.state = RecvPollState::Notified; }
+                _ => { $f.channel = None; }
+            } } }
+            setup_s!(s0, 0, cs0a, cs0b);
+            setup_s!(s1, 1, cs1a, cs1b);
+            setup_r!(r0, 0, cr0a, cr0b);
+            setup_r!(r1, 1, cr1a, cr1b);
+            {
+                let mut g = ch.inner.lock();
+                g.is_closed = closed;
+                // rotate the ring, then store tags 20, 21 (oldest first)
+                let mut k = 0;
+                while k < rot && cap > 0 { g.buffer.push(Tag(99)); core::mem::forget(g.buffer.pop()); k += 1; }
+                if len > 0 { g.buffer.push(Tag(20)); }
+                if len > 1 { g.buffer.push(Tag(21)); }
+                unsafe {
+                    if s_first { if ss[0] == 1 { g.send_waiters.add_front(&mut s0.wait_node); } if ss[1] == 1 { g.send_waiters.add_front(&mut s1.wait_node); } }
+                    else { if ss[1] == 1 { g.send_waiters.add_front(&mut s1.wait_node); } if ss[0] == 1 { g.send_waiters.add_front(&mut s0.wait_node); } }
+                    if r_first { if rs[0] == 1 { g.receive_waiters.add_front(&mut r0.wait_node); } if rs[1] == 1 { g.receive_waiters.add_front(&mut r1.wait_node); } }
+                    else { if rs[1] == 1 { g.receive_waiters.add_front(&mut r1.wait_node); } if rs[0] == 1 { g.receive_waiters.add_front(&mut r0.wait_node); } }
+                }
+            }
+            // oldest registered sender / receiver in the pre-state
+            let old_s: usize = if ss[0] == 1 && (ss[1] != 1 || s_first) { 0 } else if ss[1] == 1 { 1 } else { 2 };
+            let old_r: usize = if rs[0] == 1 && (rs[1] != 1 || r_first) { 0 } else if rs[1] == 1 { 1 } else { 2 };
+            let stag = [10u8, 11u8];
+            // value inventory before: tags in live send futures + buffer
+            let inv_before = (ss[0] <= 1) as usize + (ss[1] <= 1) as usize + len;
+
+            let mut alive_s = [true; 2];
+            let mut alive_r = [true; 2];
+            let mut polled_s = 2usize;
+            let mut polled_r = 2usize;
+            let mut polled_w = false;
+            let mut got: Option<u8> = None; // a value handed to the caller by this operation (received / handed back)
+            let mut created = 0usize; // values newly given to the channel by try_send
+            let mut dropped_with_future = 0usize;
+            let cls: u8 = if class == 4 { kani::any() } else { class };
+            kani::assume(cls < 4);
+            let t: usize = kani::any();
+            kani::assume(t < 2);
+            let sub: u8 = kani::any();
+            if cls == 0 {
+                kani::assume(ss[t] != 3);
+                let f = match t { 0 => &mut s0, _ => &mut s1 };
+                let wa: bool = kani::any();
+                let cell = match (t, wa) { (0, true) => &cs0a, (0, false) => &cs0b, (_, true) => &cs1a, (_, false) => &cs1b };
+                let w = ManuallyDrop::new(mk_waker(cell));
+                let mut cx = Context::from_waker(&w);
+                let res = unsafe { Pin::new_unchecked(&mut **f) }.poll(&mut cx);
+                polled_s = t;
+                polled_w = wa;
+                match res {
+                    Poll::Ready(Ok(())) => {
+                        oracle!(p, P09, ss[t] == 2 || (ss[t] == 0 && !closed && len < cap), "C09 mpmc step: a send completed although its value was neither stored nor taken");
+                    }
+                    Poll::Ready(Err(e)) => {
+                        oracle!(p, P11 | P08, ss[t] == 0 && closed && (e.0).0 == stag[t], "C11 mpmc step: a send failed on an open channel or did not hand back its own value");
+                        got = Some((e.0).0);
+                        core::mem::forget(e);
+                    }
+                    Poll::Pending => {
+                        oracle!(p, P09 | P11, ss[t] == 1 || (ss[t] == 0 && !closed && len == cap), "C09 mpmc step: a send stays pending although there is room, its value was taken, or the channel is closed");
+                    }
+                }
+            } else if cls == 1 {
+                kani::assume(rs[t] != 3);
+                let f = match t { 0 => &mut r0, _ => &mut r1 };
+                let wa: bool = kani::any();
+                let cell = match (t, wa) { (0, true) => &cr0a, (0, false) => &cr0b, (_, true) => &cr1a, (_, false) => &cr1b };
+                let w = ManuallyDrop::new(mk_waker(cell));
+                let mut cx = Context::from_waker(&w);
+                let res = unsafe { Pin::new_unchecked(&mut **f) }.poll(&mut cx);
+                polled_r = t;
+                polled_w = wa;
+                let avail = len > 0 || n_regs > 0;
+                match res {
+                    Poll::Ready(Some(v)) => {
+                        oracle!(p, P08 | P09, rs[t] != 1 && avail, "C08 mpmc step: a receive yielded a value although none is available to it");
+                        let head = if len > 0 { 20 } else if old_s < 2 { stag[old_s] } else { 0 };
+                        oracle!(p, P09, v.0 == head, "C09 mpmc step: a receive did not yield the oldest value");
+                        got = Some(v.0);
+                        core::mem::forget(v);
+                    }
+                    Poll::Ready(None) => { oracle!(p, P11 | P08, rs[t] != 1 && closed && !avail, "C11 mpmc step: a receive yielded None although open or a value is available"); }
+                    Poll::Pending => { oracle!(p, P10 | P11, rs[t] == 1 || (!avail && !closed), "C10 mpmc step: a receive stays pending although a value is available or the channel is closed"); }
+                }
+            } else if cls == 2 {
+                // drop send / drop recv / cancel send
+                kani::assume(sub < 3);
+                if sub == 0 {
+                    let f = match t { 0 => &mut s0, _ => &mut s1 };
+                    if ss[t] <= 1 { dropped_with_future = 1; }
+                    unsafe { ManuallyDrop::drop(f) };
+                    alive_s[t] = false;
+                } else if sub == 1 {
+                    let f = match t { 0 => &mut r0, _ => &mut r1 };
+                    unsafe { ManuallyDrop::drop(f) };
+                    alive_r[t] = false;
+                } else {
+                    kani::assume(ss[t] != 3);
+                    let f = match t { 0 => &mut s0, _ => &mut s1 };
+                    match f.cancel() {
+                        Some(v) => { oracle!(p, P08, ss[t] <= 1 && v.0 == stag[t], "C08 mpmc step: cancel() returned a value that is not in the future"); got = Some(v.0); core::mem::forget(v); }
+                        None => { oracle!(p, P08, ss[t] == 2, "C08 mpmc step: cancel() lost the value that was still in the send future"); }
+                    }
+                }
+            } else {
+                kani::assume(sub < 3);
+                if sub == 0 {
+                    kani::assume(cap > 0);
+                    match ch.try_send(Tag(30)) {
+                        Ok(()) => { oracle!(p, P09 | P11, !closed && len < cap, "C09 mpmc step: try_send accepted a value on a full or closed channel"); created = 1; }
+                        Err(TrySendError::Full(v)) => { oracle!(p, P09 | P08, !closed && len == cap && v.0 == 30, "C09 mpmc step: try_send reported Full wrongly or returned a foreign value"); core::mem::forget(v); }
+                        Err(TrySendError::Closed(v)) => { oracle!(p, P11 | P08, closed && v.0 == 30, "C11 mpmc step: try_send reported Closed wrongly or returned a foreign value"); core::mem::forget(v); }
+                    }
+                } else if sub == 1 {
+                    let avail = len > 0 || n_regs > 0;
+                    match ch.try_receive() {
+                        Ok(v) => {
+                            let head = if len > 0 { 20 } else if old_s < 2 { stag[old_s] } else { 0 };
+                            oracle!(p, P08 | P09, avail && v.0 == head, "C09 mpmc step: try_receive did not yield the oldest value");
+                            got = Some(v.0);
+                            core::mem::forget(v);
+                        }
+                        Err(e) => { oracle!(p, P08 | P11, !avail && e.is_closed() == closed, "C08 mpmc step: try_receive reported empty/closed wrongly"); }
+                    }
+                } else {
+                    let stt = ch.close();
+                    oracle!(p, P11, stt.is_newly_closed() == !closed, "C11 mpmc step: close() status wrong");
+                }
+            }
+
+            // ---- post-state ----
+            let ss2 = [obs_s(&s0), obs_s(&s1)];
+            let rs2 = [obs_r(&r0), obs_r(&r1)];
+            let (closed2, len2) = { let g = ch.inner.lock(); (g.is_closed, g.buffer.len()) };
+            let regs2 = (alive_s[0] && ss2[0] == 1) as usize + (alive_s[1] && ss2[1] == 1) as usize;
+            let regr2 = (alive_r[0] && rs2[0] == 1) as usize + (alive_r[1] && rs2[1] == 1) as usize;
+            let notr2 = (alive_r[0] && rs2[0] == 2) as usize + (alive_r[1] && rs2[1] == 2) as usize;
+            // I1
+            if closed2 { oracle!(p, P11, regs2 == 0 && regr2 == 0, "C11 mpmc step: a future is still registered on a closed channel"); }
+            oracle!(p, P11, closed2 == (closed || (cls == 3 && sub == 2)), "C11 mpmc step: closed flag changed by something else than close()");
+            // I2
+            oracle!(p, P09, len2 <= cap, "C09 mpmc step: more values buffered than the capacity");
+            if regs2 > 0 { oracle!(p, P09, len2 == cap, "C09 mpmc step: a sender is parked although the buffer has room"); }
+            // I3 + the C10 statement
+            if regr2 > 0 { oracle!(p, P10, notr2 >= regs2 + len2, "C10 mpmc step: fewer notified receivers than available values while receivers are registered"); }
+            if (len2 > 0 || regs2 > 0) && (regr2 + notr2) > 0 { oracle!(p, P10, notr2 > 0, "C10 mpmc step: a value is available and receivers are pending, but none is notified"); }
+            // newly notified receivers / completed senders were woken through their latest waker
+            let cells_sa = [&cs0a, &cs1a]; let cells_sb = [&cs0b, &cs1b];
+            let cells_ra = [&cr0a, &cr1a]; let cells_rb = [&cr0b, &cr1b];
+            let mut i = 0;
+            while i < 2 {
+                if alive_r[i] && rs[i] == 1 && rs2[i] != 1 && i != polled_r {
+                    let c = if lwr[i] { cells_ra[i] } else { cells_rb[i] };
+                    oracle!(p, P10 | P11, c.n() == 1, "C10 mpmc step: a registered receiver was dequeued without being woken through its latest waker");
+                }
+                if alive_s[i] && ss[i] == 1 && ss2[i] != 1 && i != polled_s && !(cls == 2 && sub == 2 && i == t) {
+                    let c = if lws[i] { cells_sa[i] } else { cells_sb[i] };
+                    oracle!(p, P10 | P11, c.n() == 1, "C10 mpmc step: a parked sender was dequeued without being woken through its latest waker");
+                }
+                i += 1;
+            }
+            // I4 + value conservation
+            i = 0;
+            let mut inv_after = len2;
+            while i < 2 {
+                if alive_s[i] {
+                    let f = if i == 0 { &s0 } else { &s1 };
+                    let has = f.wait_node.value.is_some();
+                    oracle!(p, P08, has == (ss2[i] <= 1 && !(cls == 2 && sub == 2 && i == t)), "C08 mpmc step: a send future's value slot disagrees with its state");
+                    if has {
+                        inv_after += 1;
+                        oracle!(p, P08, f.wait_node.value.as_ref().unwrap().0 == stag[i], "C08 mpmc step: a send future holds a foreign value");
+                    }
+                }
+                i += 1;
+            }
+            oracle!(p, P08, inv_after + (got.is_some() as usize) + dropped_with_future == inv_before + created,
+                "C08 mpmc step: the number of values in futures + buffer + handed to the caller is not conserved");
+            // FIFO: what is in the buffer now is the old content minus the head plus the new tail
+            if (p & P09) != 0 && len2 > 0 {
+                let mut g = ch.inner.lock();
+                let first = g.buffer.pop();
+                let took = got.is_some() && (cls == 1 || (cls == 3 && sub == 1));
+                let exp_first = if took {
+                    if len > 1 { 21 } else if old_s < 2 { stag[old_s] } else { 255 }
+                } else if len > 0 { 20 } else if cls == 0 { stag[t] } else { 30 };
+                assert!(first.0 == exp_first, "C09 mpmc step: buffer order differs from FIFO after the operation");
+                core::mem::forget(first);
+            } else if (p & P01) != 0 {
+                // I5 queue membership and stored wakers
+                let g = ch.inner.lock();
+                let sn: [*const SNode; 2] = [&s0.wait_node, &s1.wait_node];
+                let rn: [*const RNode; 2] = [&r0.wait_node, &r1.wait_node];
+                assert!(g.send_waiters.verif_len_checked(2) == Some(regs2), "C01 mpmc step: send queue inconsistent or holds a node that is not a live parked sender");
+                assert!(g.receive_waiters.verif_len_checked(2) == Some(regr2), "C01 mpmc step: receive queue inconsistent or holds a node that is not a live registered receiver");
+                i = 0;
+                while i < 2 {
+                    let shs = alive_s[i] && ss2[i] == 1;
+                    assert!(g.send_waiters.verif_pos_from_tail(sn[i], 2).is_some() == shs, "C01 mpmc step: send queue membership differs from {alive and parked}");
+                    if !shs { assert!(unsafe { &*sn[i] }.verif_unlinked(), "C01 mpmc step: a send future outside the queue still carries links"); }
+                    let shr = alive_r[i] && rs2[i] == 1;
+                    assert!(g.receive_waiters.verif_pos_from_tail(rn[i], 2).is_some() == shr, "C01 mpmc step: receive queue membership differs from {alive and registered}");
+                    if !shr { assert!(unsafe { &*rn[i] }.verif_unlinked(), "C01 mpmc step: a receive future outside the queue still carries links"); }
+                    if shs {
+                        let lwc: &WakeCell = if i == polled_s { if polled_w { cells_sa[i] } else { cells_sb[i] } } else if lws[i] { cells_sa[i] } else { cells_sb[i] };
+                        let ok = match &unsafe { &*sn[i] }.task { Some(w) => w.will_wake(&ManuallyDrop::new(mk_waker(lwc))), None => false };
+                        assert!(ok, "C01 mpmc step: parked sender does not store the waker of its latest poll");
+                    }
+                    if shr {
+                        let lwc: &WakeCell = if i == polled_r { if polled_w { cells_ra[i] } else { cells_rb[i] } } else if lwr[i] { cells_ra[i] } else { cells_rb[i] };
+                        let ok = match &unsafe { &*rn[i] }.task { Some(w) => w.will_wake(&ManuallyDrop::new(mk_waker(lwc))), None => false };
+                        assert!(ok, "C01 mpmc step: registered receiver does not store the waker of its latest poll");
+                    }
+                    i += 1;
+                }
+            }
+            if (p & P17) != 0 {
+                if alive_s[0] { assert!(s0.is_terminated() == (ss2[0] == 3), "C17 mpmc step: send future is_terminated() wrong"); }
+                if alive_s[1] { assert!(s1.is_terminated() == (ss2[1] == 3), "C17 mpmc step: send future is_terminated() wrong"); }
+                if alive_r[0] { assert!(r0.is_terminated() == (rs2[0] == 3), "C17 mpmc step: receive future is_terminated() wrong"); }
+                if alive_r[1] { assert!(r1.is_terminated() == (rs2[1] == 3), "C17 mpmc step: receive future is_terminated() wrong"); }
+                if polled_s < 2 { assert!((ss2[polled_s] == 3) == (got.is_some() || (ss[polled_s] == 2 || (ss[polled_s] == 0 && !closed && len < cap))), "C17 mpmc step: a send future terminated without completing (or vice versa)"); }
+            }
+            core::mem::forget(ch);
+        }
+    }
+
+    #[cfg(kani)]
+    mod proofs {
+        use super::*;
+        type B0 = ArrayBuf<Tag, [Tag; 0]>;
+        type B1 = ArrayBuf<Tag, [Tag; 1]>;
+        type B2 = ArrayBuf<Tag, [Tag; 2]>;
+
+        macro_rules! hist_proof {
+            ($name:ident, $lock:ty, $buf:ty, $cap:expr, $pre:expr, $stream:expr, $ops:expr, $n:expr, $p:expr, $unw:expr) => {
+                #[kani::proof]
+                #[kani::unwind($unw)]
+                fn $name() {
+                    let _bits = hist::<$lock, $buf, _>(&mut KaniSrc, $cap | ($pre << 4) | ($stream << 8) | (($ops) << 12), $cap, $n, $p);
+                }
+            };
+        }
+        include!(concat!(env!("FI_VERIF_INC"), "/mpmc_proofs.rs"));
+
+        macro_rules! step_proof {
+            ($name:ident, $lock:ty, $buf:ty, $cap:expr, $class:expr, $p:expr) => {
+                #[kani::proof]
+                #[kani::unwind(5)]
+                fn $name() { step::run::<$lock, $buf>($cap, $class, $p) }
+            };
+        }
+        include!(concat!(env!("FI_VERIF_INC"), "/mpmc_step_proofs.rs"));
+
+        #[kani::proof]
+        #[kani::unwind(7)]
+        fn witness_rendezvous_c0() {
+            let bits = hist::<NoopLock, B0, _>(&mut KaniSrc, 0 | (5 << 4) | ((OP_SEND | OP_RECV) << 12), 0, 4, 0);
+            assert!(bits & W_RENDEZVOUS == 0, "WITNESS reached");
+        }
+        #[kani::proof]
+        #[kani::unwind(7)]
+        fn witness_notified_dropped_c1() {
+            let bits = hist::<NoopLock, B1, _>(&mut KaniSrc, 1 | (4 << 4) | ((OP_SEND | OP_RECV | OP_DROP_R | OP_DROP_S) << 12), 1, 4, 0);
+            assert!(bits & W_NOTIFIED_DROPPED == 0, "WITNESS reached");
+        }
+        #[kani::proof]
+        #[kani::unwind(7)]
+        fn witness_close_parked_c1() {
+            let bits = hist::<NoopLock, B1, _>(&mut KaniSrc, 1 | (3 << 4) | ((OP_SEND | OP_RECV | OP_CLOSE) << 12), 1, 5, 0);
+            assert!(bits & W_CLOSE_WITH_PARKED == 0, "WITNESS reached");
+        }
+        #[kani::proof]
+        #[kani::unwind(7)]
+        fn witness_stream_c1() {
+            let bits = hist::<NoopLock, B1, _>(&mut KaniSrc, 1 | (1 << 4) | (1 << 8) | ((OP_SEND | OP_RECV | OP_CLOSE) << 12), 1, 5, 0);
+            assert!(bits & W_STREAM_ENDS == 0, "WITNESS reached");
+        }
+    }
+}
